@@ -228,6 +228,28 @@ def run(R, only=None):
         i = sorted(failing)[0]
         names = {1: "static type table (analyze_type) = model", 2: "kernel result variant = model", 3: "INSERT conversion = model (stored value)", 4: "INSERT accepted a value the model refuses"}
         R.correspondence_broken(f"C16 {names.get(failing[i][0], failing[i][0])}: {tmeta[i]}", tmeta[i])
+    # ---- INSERT with a column list: every value must land in the column it names (converted to that column's type), whatever the
+    #      order of the list; unnamed columns become NULL
+    import itertools
+    cl_jobs, cl_meta = [], []
+    vals = {"a": ("11", 11), "b": ("'22'", 22), "c": ("33", "33")}        # literal, value as stored in the named column
+    lists = [list(p) for p in itertools.permutations("abc")] + [["a", "c"], ["c", "a"], ["b"], ["c", "b"]]
+    for engine in ("mem", "disk"):
+        for cols in lists:
+            for form in ("values", "select"):
+                src = ", ".join(vals[c][0] for c in cols)
+                stmt = f"insert into t({', '.join(cols)}) " + (f"values ({src})" if form == "values" else f"select {src}")
+                cl_jobs.append({"engine": engine, "steps": [{"sql": "create table t(a int, b bigint, c varchar)"}, {"sql": stmt}, {"sql": "select a, b, c from t"}]})
+                cl_meta.append((engine, stmt, [vals[c][1] if c in cols else None for c in "abc"]))
+    for (engine, stmt, want), j, o in zip(cl_meta, cl_jobs, run_harness("sql", cl_jobs, jobs=16)):
+        rep = {"kind": "sql-script", "case": j}
+        if not isinstance(o, list) or len(o) < 3 or "ok" not in o[1] or "ok" not in o[2]:
+            R.property_fails(None, f"C16 ({engine}) `{stmt}` failed: {json.dumps(o)[-200:]}", rep)
+            continue
+        got = [[None if v is None else v[1] for v in r] for r in o[2]["ok"][0]["rows"]]
+        if got != [want]:
+            R.property_fails(None, f"C16 ({engine}) `{stmt}` stored {got}, the named columns should hold {[want]}", rep)
+    R.coverage["column_list_inserts"] = len(cl_jobs)
     R.coverage.update({
         "evaluations": len(terms) + compared, "distinct_nontrivial": len(terms),
         "rule": "A: every binary operator (15 symbols, 10 classes) x every ordered pair of the 13 data types (NULL as a literal; two different tables so "
